@@ -291,7 +291,10 @@ func genSet(r *vlib.R, z *zone, q name) []rec {
 	if r.Chance(1, 4) && len(z.apex) > 0 {
 		par := z.apex.parent()
 		for i := 0; i < 1+r.Intn(2); i++ {
-			switch r.Intn(4) {
+			switch r.Intn(5) {
+			case 4: // a sibling whose last label merely ends in ".<apex label>" (escaped dot)
+				t := trickName(z, "x")
+				set = append(set, rec{owner: t, next: trickName(z, "y"), cls: 1, types: authTypes(tA)})
 			case 0: // parent-zone record straddling the apex's subtree
 				set = append(set, rec{owner: z.apex, next: par.child(z.apex[0] + "0"), cls: 1, types: authTypes(tNS, tDS)})
 			case 1: // parent-zone record before the apex
@@ -349,6 +352,16 @@ func genSet(r *vlib.R, z *zone, q name) []rec {
 	return set
 }
 
+// trickName: a name OUTSIDE the zone whose presentation text ends with the
+// zone's text: the apex's leaf label is glued into one label "<p>.<leaf>"
+// (the dot is an octet of the label, written \. in presentation form).
+func trickName(z *zone, p string) name {
+	if len(z.apex) == 0 {
+		return name{p}
+	}
+	return z.apex.parent().child(p + "." + z.apex[0])
+}
+
 func genSigner(r *vlib.R, z *zone) name {
 	switch k := r.Intn(40); {
 	case k == 0 && len(z.apex) > 0:
@@ -367,6 +380,23 @@ func genNsecCase(r *vlib.R, emit func(string)) int {
 	z := genZone(r)
 	emit("z new " + z.String())
 	cnt := 1
+	// the zone's records offered under the PARENT as signer: the last record's
+	// wrap-around span must not swallow the parent's other children
+	if r.Chance(1, 8) && len(z.apex) > 0 {
+		ch := z.chain()
+		set := []rec{ch[len(ch)-1]}
+		if r.Bool() {
+			set = ch
+		}
+		emit("z set " + recsStr(set))
+		par := z.apex.parent()
+		for _, q := range []name{par.child(z.apex[0] + "0"), par.child(z.apex[0] + "z").child("a"), par.child("zzzz")} {
+			emit(fmt.Sprintf("z agg %s %s 1 1", par, q))
+			emit(fmt.Sprintf("z nxd %s %s 1", par, q))
+			cnt += 2
+		}
+		cnt++
+	}
 	rounds := 2 + r.Intn(4)
 	for i := 0; i < rounds; i++ {
 		q := genQuery(r, z)
@@ -416,6 +446,10 @@ func genNsecCase(r *vlib.R, emit func(string)) int {
 		emit(fmt.Sprintf("z ce %s %s %s", c, a, b))
 		emit(fmt.Sprintf("z inzone %s %s", a, vlib.Pick(r, []name{z.apex, b, c, {}})))
 		cnt += 4
+		if i == 0 {
+			emit(fmt.Sprintf("z inzone %s %s", trickName(z, vlib.Pick(r, []string{"x", "a\\", "\\"})), z.apex))
+			cnt++
+		}
 	}
 	return cnt
 }
@@ -460,6 +494,12 @@ func witnessOps() []string {
 		"z set example|a.b.example|1|2,6,46,47,48",
 		"z nxd example b.example 1",
 		"z agg example b.example 1 1",
+		// a child zone's last record (wrap-around span) offered under the parent as
+		// signer must not deny the parent's other children (RFC 8198 App. B: the
+		// wrap case is limited to names below the next name)
+		"z new ~21.test 1 ~21.test:2,6,46,47,48;x.~21.test:1,46,47",
+		"z set x.~21.test|~21.test|1|1,46,47",
+		"z agg test zz.test 1 1",
 		// NSEC3: delegation point's record used to deny data at the delegation point
 		"h new example 1 example:2,6,46,48,51;sub.example:2,46;zzz.example:1,46 - 0 -",
 		"h set H0e19edc62ea5a129ac22c11f50edeb0c5c328128|example|H1db8efa7dcb348bda7893fca1d8badfdb6996b01|20|1|0|0|-|1|2,46",
